@@ -1,0 +1,23 @@
+//go:build verif
+// +build verif
+
+package verifhook
+
+import "sync/atomic"
+
+var handler atomic.Value // of func(string)
+
+// Set installs the function called at every yield point (nil removes it).
+func Set(f func(point string)) {
+	if f == nil {
+		f = func(string) {}
+	}
+	handler.Store(f)
+}
+
+// Yield calls the installed handler, if any.
+func Yield(point string) {
+	if f, ok := handler.Load().(func(string)); ok {
+		f(point)
+	}
+}
